@@ -174,6 +174,7 @@ func (x *Exec) sentinelFacts(qname string) {
 	x.assumeTrue(Gt(h, Num(0)))
 	x.assumeTrue(Lt(App("dyntype", SInt, h), Num(0)))
 	x.assumeTrue(Eq(App("pkgerr", SBool, h), Bool(gi != nil)))
+	x.assumeTrue(Not(App("perr", SBool, h)))
 	for other := range x.sentinels {
 		x.assumeTrue(Ne(h, globalTerm(other, "", SInt)))
 	}
@@ -189,6 +190,7 @@ func (x *Exec) sentinelFacts(qname string) {
 		x.note("assumed: " + qname + " is a distinct sentinel matching only itself")
 	}
 	x.assumeNeed("Is", isAxiom(h, wraps))
+	x.assumeNeed("AsT", asAxiom(h, wraps))
 }
 
 // globalSliceFacts: contents of slice-literal globals in the entry heap.
